@@ -56,6 +56,19 @@ def raised_in_method_of(exc, cls, method):
     return False
 
 
+def raised_under_method_of(exc, cls, method):
+    """Like `raised_in_method_of`, also for the function that `method` RETURNED (lambdify returns a
+    lambda defined inside it: its frames are named '<lambda>' and close over `self`)."""
+    tb = exc.__traceback__
+    while tb is not None:
+        f = tb.tb_frame
+        if f.f_code.co_qualname.endswith("%s.<locals>.<lambda>" % method) or f.f_code.co_name == method:
+            if isinstance(f.f_locals.get("self"), cls):
+                return True
+        tb = tb.tb_next
+    return False
+
+
 def classify_subs_exception(d, exc, what):
     """Narrow signature of an exception raised by d.subs / d.lambdify."""
     from discopy.quantum.gates import Digits, ClassicalGate
@@ -71,6 +84,9 @@ def classify_subs_exception(d, exc, what):
     if what == "lambdify" and isinstance(exc, TypeError) \
             and raised_in_method_of(exc, ClassicalGate, "lambdify"):
         return "classicalgate_lambdify_raises"                           # F5i
+    if what == "lambdify" and isinstance(exc, TypeError) \
+            and any(pl.has_nested_ndarray(getattr(b, "data", None)) for b in d.boxes):
+        return "ndarray_inside_container:lambdify"                       # F4l
     return "%s_raises:%s" % (what, exc_sig(exc))
 
 
@@ -225,7 +241,19 @@ def compare_eval(rep, sig_prefix, case, lhs_entries, rhs_entries, point, exact=F
     if len(lhs_entries) != len(rhs_entries):
         rep.fail(sig_prefix + ":shape", case, "shapes differ")
         return False
-    a, b = pl.numvec(lhs_entries, point), pl.numvec(rhs_entries, point)
+    try:
+        b = pl.numvec(rhs_entries, point)
+    except Exception as exc:            # the reference side is not closed at `point`: nothing to compare with
+        rep.count("compare_skipped:reference_not_numeric")
+        return False
+    try:
+        a = pl.numvec(lhs_entries, point)
+    except Exception as exc:
+        # the library's side still contains symbols that the substitution should have removed
+        # (or entries that are not numbers at all) where the reference side is a number
+        rep.fail(sig_prefix + ":not_numeric", case, "%s: %s, expected %s" % (
+            exc_sig(exc), str(lhs_entries)[:200], str(rhs_entries)[:200]))
+        return False
     if not pl.close(a, b):
         k = int(np.argmax(np.abs(a - b)))
         rep.fail(sig_prefix, case, "entry %d at %s: %r vs %r (%r vs %r)" % (
@@ -806,6 +834,329 @@ def check_ndarray_data(rep, rng, syms):
         rep.fail("ndarray_box_data:lambdify", case, repr(exc)[:200])
 
 
+# --------------------------------------------------------------------------- containers of box data
+
+ARRAY_SHAPES = [([], [2]), ([2], []), ([2], [2]), ([2], [3]), ([3], [2]), ([], [2, 2]), ([2, 2], [2]),
+                ([2], [2, 2]), ([], [2, 3]), ([2, 2], [2, 2])]
+
+
+def container_entries(rng, eg, syms, n, symbolic):
+    """`n` box entries, at least one with symbols when `symbolic`."""
+    flat = [rng.choice([eg.affine, eg.poly, eg.poly, eg.nonlinear])() if (symbolic and rng.random() < 0.5)
+            else rng.choice([0, 1, 1, 2, -1, 0.5]) for _ in range(n)]
+    if symbolic and not any(getattr(e, "free_symbols", None) for e in flat):
+        flat[rng.randrange(n)] = eg.affine() + rng.choice(syms) * 2
+    return flat
+
+
+def check_zero_d(rep, case, box, data):
+    """A 0-d array holding an expression is a parameter like any other.  Returns True when the box
+    reports its symbols (the full check then runs), False after reporting the narrow signature."""
+    own = pl.data_symbols(data)
+    try:
+        got = set(box.free_symbols)
+    except Exception as exc:
+        rep.fail("free_symbols_raises:" + exc_sig(exc), case, repr(exc)[:200])
+        return False
+    if got == own:
+        return True
+    outside = pl.data_symbols_outside_zero_d(data)
+    if got == outside and outside != own:
+        rep.fail("free_symbols_wrong:zero_d_array", case, "reported %s, the 0-d array(s) contain %s" % (
+            sorted(map(str, got)), sorted(map(str, pl.zero_d_symbols(data)))))                # F4z
+    else:
+        rep.fail("free_symbols_wrong", case, "reported %s, parameters contain %s" % (
+            sorted(map(str, got)), sorted(map(str, own))))
+    return False
+
+
+def check_array_containers(rep, rng, syms, real, kind, fam="tensor", budget=3, big=False):
+    """The same entries handed to an array-valued box (tensor.Box; ClassicalGate for fam 'mixed')
+    in the container `kind`, alone and inside a diagram with an ordinary list-data box; then the
+    whole of C14's oracle (`check_diagram`: E1-E4, every way of supplying a substitution, lambdify)."""
+    from discopy.tensor import Box, Dim, Id
+    eg = pl.ExprGen(rng, syms)
+    # (0-d arrays and arrays inside containers always with symbols: the witnesses of F4z / F4l)
+    symbolic = rng.random() < 0.9 or kind in pl.SINGLE_KINDS or kind.endswith("_of_ndarrays")
+    rep.count("container:" + kind)
+    rep.count("container_host:" + ("tensor.Box" if fam == "tensor" else "ClassicalGate"))
+    if fam == "mixed":
+        from discopy.quantum import Ket, Measure
+        from discopy.quantum.gates import ClassicalGate
+        ncod = rng.choice([1, 1, 2])
+        dims = [2] * (1 + ncod)
+        flat = container_entries(rng, eg, syms, 2 ** (1 + ncod), symbolic)
+        data = pl.array_container(rng, flat, dims, kind)
+        case = dict(family="containers", host="ClassicalGate", container=kind, data=pl.canon_repr(data)[:300])
+        try:
+            if rng.random() < 0.3:
+                g = ClassicalGate("g", ncod, 1, data).dagger()
+            else:
+                g = ClassicalGate("g", 1, ncod, data)
+            d = Ket(rng.choice([0, 1])) >> Measure() >> g
+        except Exception as exc:
+            rep.fail("container_box_construction_raises:" + exc_sig(exc), case, repr(exc)[:200])
+            return
+        if set(g.free_symbols) != pl.data_symbols(data):
+            rep.fail("free_symbols_wrong", case, "reported %s, parameters contain %s" % (
+                sorted(map(str, g.free_symbols)), sorted(map(str, pl.data_symbols(data)))))
+        check_diagram(rep, "mixed", d, syms, rng, True, budget)
+        return
+    if kind in pl.SINGLE_KINDS:
+        dom, cod = [], []
+    else:
+        dom, cod = rng.choice(ARRAY_SHAPES if big else ARRAY_SHAPES[:7])
+    n = int(np.prod(dom + cod)) if dom + cod else 1
+    flat = container_entries(rng, eg, syms, n, symbolic)
+    dagger = rng.random() < 0.25
+    d0, c0 = (cod, dom) if dagger else (dom, cod)
+    data = pl.array_container(rng, flat, d0 + c0, kind)
+    case = dict(family="containers", host="tensor.Box", container=kind, data=pl.canon_repr(data)[:300])
+    try:
+        b = Box("v", Dim(*d0), Dim(*c0), data)
+        if dagger:
+            b = b.dagger()
+        shape = rng.choice(["alone", "then", "after", "tensor"])
+        other = None
+        if shape == "then":
+            m = rng.choice([2, 3])
+            other = Box("m", Dim(*cod), Dim(m), container_entries(rng, eg, syms, max(1, int(np.prod(cod))) * m, True))
+            d = b >> other
+        elif shape == "after":
+            m = rng.choice([2, 3])
+            other = Box("m", Dim(m), Dim(*dom), container_entries(rng, eg, syms, max(1, int(np.prod(dom))) * m, True))
+            d = other >> b
+        elif shape == "tensor":
+            other = Box("m", Dim(1), Dim(2), container_entries(rng, eg, syms, 2, True))
+            d = b @ other if rng.random() < 0.5 else other @ b
+        else:
+            d = b
+    except Exception as exc:
+        rep.fail("container_box_construction_raises:" + exc_sig(exc), case, repr(exc)[:200])
+        return
+    rep.count("container_context:" + shape)
+    if "ndarray0" in pl.container_types(data) and not check_zero_d(rep, dict(case, diagram=repr(d)[:300]), b, data):
+        rep.case("zero_d|%s" % case["data"], bool(pl.data_symbols(data)))
+        return
+    # the box must report the symbols of the entries it was GIVEN (the container is not data)
+    if set(b.free_symbols) != pl.data_symbols(flat):
+        rep.fail("free_symbols_wrong", dict(case, diagram=repr(d)[:300]), "reported %s, parameters contain %s" % (
+            sorted(map(str, b.free_symbols)), sorted(map(str, pl.data_symbols(flat)))))
+    check_diagram(rep, "tensor", d, syms, rng, real, budget)
+
+
+def host_box(rng, host, name, data):
+    """A box of class `host` keeping `data` as its parameters (dom == cod: composable both ways)."""
+    from discopy import cat, monoidal, rigid, tensor
+    from discopy.quantum import circuit, qubit
+    from discopy.quantum.gates import QuantumGate
+    if host == "cat":
+        return cat.Box(name, cat.Ob("x"), cat.Ob("x"), data=data)
+    if host == "monoidal":
+        return monoidal.Box(name, monoidal.Ty("x"), monoidal.Ty("x"), data=data)
+    if host == "rigid":
+        return rigid.Box(name, rigid.Ty("x"), rigid.Ty("x"), data=data)
+    if host == "tensor":
+        return tensor.Box(name, tensor.Dim(2), tensor.Dim(2), data)
+    if host == "circuit_pure":
+        return circuit.Box(name, qubit, qubit, is_mixed=False, data=data)
+    if host == "circuit_mixed":
+        return circuit.Box(name, qubit, qubit, is_mixed=True, data=data)
+    if host == "quantumgate":
+        array = rng.choice([[1, 0, 0, 1], (0, 1, 1, 0), ((1, 0), (0, -1)), [(0, 1), (1, 0)]])
+        return QuantumGate(name, 1, array=array, data=data)
+    raise ValueError(host)
+
+
+WILD_HOSTS = ["cat", "monoidal", "rigid", "tensor", "circuit_pure", "circuit_mixed", "quantumgate"]
+
+
+def leaf_subs(args):
+    def f(e):
+        return sympy.sympify(e).subs(*args) if getattr(e, "free_symbols", None) else e
+    return f
+
+
+def check_wild_containers(rep, rng, syms, real, host, kind):
+    """Nested data that is not an array (sets, frozensets, dicts, arrays and tuples inside them, ...),
+    or an array container on a class without evaluation, as the `data` of a box of every class that
+    accepts it: free symbols = the symbols of the entries; subs / lambdify act on the entries and
+    keep everything else (no evaluation exists for these boxes: the data is what is observable)."""
+    from discopy.quantum.gates import QuantumGate
+    eg = pl.ExprGen(rng, syms)
+    symbolic = rng.random() < 0.9
+
+    def leaf():
+        if symbolic and rng.random() < 0.6:
+            return rng.choice([eg.affine, eg.poly, eg.nonlinear])()
+        return rng.choice([0, 1, 2, -1, 0.5, sympy.Rational(1, 3)])
+    if kind in pl.ARRAY_KINDS:
+        flat = container_entries(rng, eg, syms, 4, symbolic)
+        data = pl.array_container(rng, flat, [2, 2], kind)
+    else:
+        data = pl.wild_container(rng, leaf, kind)
+        if symbolic and not pl.data_symbols(data):
+            data = {"k": data, "s": {eg.affine() + rng.choice(syms)}} if rng.random() < 0.5 \
+                else (data, (eg.poly() * rng.choice(syms), ))
+    types = pl.container_types(data)
+    rep.count("container:" + kind)
+    rep.count("container_host:" + host)
+    for t in sorted(types):
+        rep.count("container_type:" + t)
+    case = dict(family="containers", host=host, container=kind, data=pl.canon_repr(data)[:400])
+    other_data = [eg.affine() + rng.choice(syms)]
+    try:
+        b = host_box(rng, host, "v", data)
+        dagger = host != "circuit_pure" and rng.random() < 0.25
+        if dagger:
+            b = b.dagger()
+        other = host_box(rng, host, "m", other_data)
+        shape = rng.choice(["alone", "then", "after"] + ([] if host == "cat" else ["tensor"]))
+        d = dict(alone=lambda: b, then=lambda: b >> other, after=lambda: other >> b,
+                 tensor=lambda: b @ other if rng.random() < 0.5 else other @ b)[shape]()
+        idx = [i for i, x in enumerate(d.boxes) if x is b or (x.name == "v")][0]
+    except Exception as exc:
+        rep.fail("container_box_construction_raises:" + exc_sig(exc), case, repr(exc)[:200])
+        return
+    case = dict(case, diagram=shape, dagger=dagger)
+    own = pl.data_symbols(data)
+    want_free = own | (pl.data_symbols(other_data) if shape != "alone" else set())
+    key = "wild|%s|%s|%s|%s" % (host, kind, case["data"], shape)
+    rep.count("family:containers")
+    rep.case(key, bool(own) and bool(types - {"list"}))
+    # ---- E4 free symbols = symbols of the entries
+    if "ndarray0" in types and not check_zero_d(rep, case, b, data):
+        return
+    try:
+        if set(b.free_symbols) != own:
+            rep.fail("free_symbols_wrong", case, "box reports %s, its parameters contain %s" % (
+                sorted(map(str, b.free_symbols)), sorted(map(str, own))))
+        if set(d.free_symbols) != want_free:
+            rep.fail("free_symbols_wrong", case, "diagram reports %s, the parameters contain %s" % (
+                sorted(map(str, d.free_symbols)), sorted(map(str, want_free))))
+    except Exception as exc:
+        rep.fail("free_symbols_raises:" + exc_sig(exc), case, repr(exc)[:200])
+        return
+    point = pl.rational_point(rng, sorted(set(syms) | want_free, key=str) + [sympy.Symbol("z0", real=True), sympy.Symbol("z0")])
+    # ---- substitutions
+    subs_list = substitutions(rng, syms, want_free, eg, real)
+    closing = [x for x in subs_list if x.closes and x.style != "absent"]
+    rng.shuffle(subs_list)
+    chosen = subs_list[:2] + closing[:1]
+    for sub in chosen:
+        c = dict(case, subs=repr(sub))
+        rep.count("style:" + sub.style)
+        rep.case(key + "|" + repr(sub), bool(own) and sub.style != "absent")
+        try:
+            s = d.subs(*sub.args)
+        except Exception as exc:
+            if host == "quantumgate" and isinstance(exc, TypeError) and raised_in_method_of(exc, QuantumGate, "subs"):
+                rep.fail("quantumgate_with_data:subs_raises", c, repr(exc)[:200])             # F4b
+            else:
+                rep.fail("subs_raises:" + exc_sig(exc), c, repr(exc)[:200])
+            continue
+        for sig, text in attr_failures(d, s, "subs"):
+            if host == "circuit_pure" and sig == "loses_mixedness:Box":
+                sig = "circuit_box_with_data:is_mixed_not_kept"                               # F4b
+            rep.fail(sig, c, text)
+        if len(s.boxes) != len(d.boxes):
+            continue
+        want_data = pl.ref_rmap(leaf_subs(sub.args), data)
+        bad = pl.nested_same(s.boxes[idx].data, want_data, point)
+        if bad:
+            rep.fail("subs_wrong_data", c, "box data after subs: %s; expected %s (%s)" % (
+                pl.canon_repr(s.boxes[idx].data)[:150], pl.canon_repr(want_data)[:150], bad[:150]))
+        else:
+            rep.count("container_subs_data_ok")
+        want_after = pl.data_symbols(want_data) | (
+            pl.data_symbols(pl.ref_rmap(leaf_subs(sub.args), other_data)) if shape != "alone" else set())
+        got_after = set(s.free_symbols)
+        if got_after != want_after:
+            rep.fail("free_symbols_wrong_after_subs", c, "%s vs %s" % (
+                sorted(map(str, got_after)), sorted(map(str, want_after))))
+        if sub.closes and got_after:
+            rep.fail("not_closed_after_substituting_all", c, "left: %s" % sorted(map(str, got_after)))
+        elif sub.closes:
+            rep.count("E4_closed_ok")
+    # ---- lambdify = subs
+    xs = sorted(want_free, key=str)
+    rng.shuffle(xs)
+    vals = [rng.choice([0.5, 0.25, 1, 2, -1, 0.3, 1.75]) for _ in xs]
+    c = dict(case, lambdify=[str(x) for x in xs], values=vals)
+    rep.count("style:lambdify")
+    rep.case(key + "|lambdify%r" % (vals, ), bool(own))
+    if pl.has_str_keys(data):
+        rep.count("lambdify_not_called:dict_with_string_keys")
+        return
+    try:
+        lam = d.lambdify(*xs)(*vals)
+    except Exception as exc:
+        if host == "quantumgate" and isinstance(exc, TypeError) and raised_under_method_of(exc, QuantumGate, "lambdify"):
+            rep.fail("quantumgate_with_data:lambdify_raises", c, repr(exc)[:200])             # F4b
+        elif types & {"set", "frozenset", "dict"} and own:
+            # sympy.lambdify does not print sets and most dicts: an explicit refusal
+            rep.count("refusal:lambdify_of_%s:%s" % ("_".join(sorted(types & {"set", "frozenset", "dict"})), exc_sig(exc)))
+        elif pl.has_nested_ndarray(data) and own:
+            rep.fail("ndarray_inside_container:lambdify", c, repr(exc)[:200])                 # F4l
+        elif host == "quantumgate" and isinstance(exc, TypeError) and raised_under_method_of(exc, QuantumGate, "lambdify"):
+            rep.fail("quantumgate_with_data:lambdify_raises", c, repr(exc)[:200])             # F4b
+        else:
+            rep.fail("lambdify_raises:" + exc_sig(exc), c, repr(exc)[:200])
+        return
+    for sig, text in attr_failures(d, lam, "lambdify"):
+        if host == "circuit_pure" and sig == "loses_mixedness:Box":
+            sig = "circuit_box_with_data:is_mixed_not_kept"
+        rep.fail(sig, c, text)
+    if len(lam.boxes) != len(d.boxes):
+        return
+    want_data = pl.ref_rmap(leaf_subs((list(zip(xs, vals)), )), data)
+    bad = pl.nested_same(lam.boxes[idx].data, want_data, {})
+    if bad:
+        rep.fail("lambdify_differs_from_subs", c, "box data after lambdify: %s; substituted: %s (%s)" % (
+            pl.canon_repr(lam.boxes[idx].data)[:150], pl.canon_repr(want_data)[:150], bad[:150]))
+    else:
+        rep.count("E2_same_diagram")
+    if set(lam.free_symbols):
+        rep.fail("not_closed_after_lambdify", c, str(lam.free_symbols))
+
+
+def container_plan(rng, quick):
+    """(stream, kind, host) triples: every kind is visited on every run; hosts rotate."""
+    plan = []
+    for kind in pl.ARRAY_KINDS + pl.SINGLE_KINDS:
+        for _ in range(1 if quick else 8):
+            plan.append(("array", kind, "tensor"))
+    for kind in (["tuple", "nested_tuple"] if quick else
+                 ["list", "tuple", "nested_tuple", "deep_mixed", "ndarray_shaped", "tuple_in_list"] * 3):
+        plan.append(("array", kind, "mixed"))
+    hosts = list(WILD_HOSTS)
+    rng.shuffle(hosts)
+    i = 0
+    for kind in pl.WILD_KINDS + ["tuple", "nested_tuple", "tuple_in_list", "list_in_tuple", "ndarray_shaped",
+                                 "tuple_of_ndarrays", "list"]:
+        for _ in range(1 if quick else 7):
+            plan.append(("wild", kind, hosts[i % len(hosts)]))
+            i += 1
+    # every host with a tuple and with a set at least once
+    for host in WILD_HOSTS:
+        plan.append(("wild", rng.choice(["tuple", "nested_tuple", "list_in_tuple"]), host))
+        if not quick:
+            plan.append(("wild", rng.choice(["set", "dict_of_tuples", "wild"]), host))
+    return plan
+
+
+def container_witnesses():
+    """Pinned instances of the region (run through the same checks as the generated ones)."""
+    from discopy.tensor import Box, Dim
+    a, b, c = pl.symbols(True, 3)
+    return [
+        lambda: Box("v", Dim(1), Dim(2), (a, 2 * b)),
+        lambda: Box("v", Dim(1), Dim(2), (a, 2 * b)) >> Box("m", Dim(2), Dim(2), [[1, c], [c, 0]]),
+        lambda: Box("w", Dim(2), Dim(2), [(a, 1), (0, b * c)]),
+        lambda: Box("w", Dim(2), Dim(2), ([a, 1], [0, b * c])).dagger() @ Box("v", Dim(1), Dim(2), (c, c + 1)),
+    ]
+
+
 # --------------------------------------------------------------------------- correspondence with the Lean model
 
 NV = 3          # variables of the model's polynomials
@@ -924,6 +1275,100 @@ def seq_model_stream(rep, drv, rng, n_cases):
             rep.disagree(stream, case, real[:400], model[:400])
 
 
+def tok_pdata(data, syms):
+    """Token form of nested data for the driver (Driver/ParamCmd.lean `pdata`), members in Python's
+    own iteration order (for a dict: its values)."""
+    if isinstance(data, np.ndarray):
+        if data.shape == ():
+            return "Z " + tok_poly(data.item(), syms)
+        kids = list(data)
+        return " ".join(["N ndarray", str(len(kids))] + [tok_pdata(k, syms) for k in kids])
+    if isinstance(data, dict):
+        return " ".join(["N dict", str(len(data))] + [tok_pdata(v, syms) for v in data.values()])
+    if isinstance(data, (list, tuple, set, frozenset)):
+        return " ".join(["N " + type(data).__name__, str(len(data))] + [tok_pdata(v, syms) for v in data])
+    return "L " + tok_poly(data, syms)
+
+
+def iter_entries(data):
+    """Entries in iteration order (no sets)."""
+    if isinstance(data, np.ndarray):
+        return data.flatten().tolist()
+    if isinstance(data, dict):
+        return [x for v in data.values() for x in iter_entries(v)]
+    if isinstance(data, (list, tuple)):
+        return [x for v in data for x in iter_entries(v)]
+    return [data]
+
+
+def data_model_stream(rep, drv, rng, n_cases):
+    """Nested box data with integer-polynomial entries on discopy (boxes of cat / monoidal / rigid /
+    tensor) and on the Lean model of `recursive_free_symbols` and `rmap` (Model/ParamData.lean):
+      dfree      the free symbols the box reports
+      dsubsfree  those of box.subs(x_i, q)
+      dsubs      the entries of the data of box.subs(x_i, q), in order (data without sets)"""
+    from discopy import cat, monoidal, rigid, tensor
+    syms = pl.symbols(True, NV)
+    fixed = {f.get("id") for f in load_findings(PROP) if f.get("status") == "fixed"}
+    z = int("F4z" in fixed)
+    rep.extra["model_fix_flag(F4z)"] = z
+    hosts = [
+        ("cat", lambda data: cat.Box("v", cat.Ob("x"), cat.Ob("y"), data=data)),
+        ("monoidal", lambda data: monoidal.Box("v", monoidal.Ty("x"), monoidal.Ty("y"), data=data)),
+        ("rigid", lambda data: rigid.Box("v", rigid.Ty("x"), rigid.Ty("y"), data=data)),
+        ("tensor", lambda data: tensor.Box("v", tensor.Dim(2), tensor.Dim(2), data)),
+    ]
+    kinds = pl.WILD_KINDS + pl.ARRAY_KINDS + pl.SINGLE_KINDS
+    lines, reals, cases = [], [], []
+    for n in range(n_cases):
+        r = random.Random(rng.getrandbits(64))
+        eg = pl.ExprGen(r, syms)
+        kind = kinds[n % len(kinds)] if n < 2 * len(kinds) else r.choice(kinds)
+
+        def leaf():
+            return eg.int_poly() if r.random() < 0.6 else sympy.Integer(r.choice([0, 1, 2, -1]))
+        if kind in pl.ARRAY_KINDS:
+            dims = r.choice([[2, 2], [2, 3], [2, 2, 2], [3]])
+            data = pl.array_container(r, [leaf() for _ in range(int(np.prod(dims)))], dims, kind)
+        elif kind in pl.SINGLE_KINDS:
+            data = pl.array_container(r, [eg.int_poly() + r.choice(syms)], [1], kind)
+        else:
+            data = pl.wild_container(r, leaf, kind)
+        hname, mk = hosts[r.randrange(len(hosts))]
+        rep.count("model_data:" + kind)
+        tok = tok_pdata(data, syms)
+        vi = r.randrange(NV)
+        # a monomial or a constant: sympy then keeps every substituted entry in expanded form, so
+        # its free symbols are those of the polynomial's normal form
+        q = r.choice([sympy.Integer(r.randint(-2, 3)), syms[r.randrange(NV)],
+                      r.choice([2, -1, 3]) * syms[r.randrange(NV)], syms[r.randrange(NV)] * syms[r.randrange(NV)]])
+
+        def idx(fs):
+            return " ".join([str(len(fs))] + [str(i) for i in sorted(syms.index(x) for x in fs)])
+        reqs = [("dfree %d %s" % (z, tok), lambda mk=mk, data=data: "ok " + idx(mk(data).free_symbols)),
+                ("dsubsfree %d %d %s %s" % (z, vi, tok_poly(q, syms), tok),
+                 lambda mk=mk, data=data, vi=vi, q=q: "ok " + idx(mk(data).subs(syms[vi], q).free_symbols))]
+        if not pl.container_types(data) & {"set", "frozenset"}:
+            reqs.append(("dsubs %d %d %s %s" % (z, vi, tok_poly(q, syms), tok),
+                         lambda mk=mk, data=data, vi=vi, q=q: (lambda es: "ok " + " ".join(
+                             [str(len(es))] + [tok_poly(e, syms) for e in es]))(
+                                 iter_entries(mk(data).subs(syms[vi], q).data))))
+        for line, fn in reqs:
+            lines.append(line)
+            cases.append(dict(host=hname, container=kind, data=pl.canon_repr(data)[:300], request=line[:400]))
+            try:
+                reals.append(fn())
+            except Exception as exc:
+                reals.append("err " + err_class(exc))
+    answers = drv.ask_many(lines)
+    for line, case, real, model in zip(lines, cases, reals, answers):
+        stream = "model:" + line.split(" ")[0]
+        rep.count(stream)
+        rep.case(line, True)
+        if real != model:
+            rep.disagree(stream, case, real[:400], model[:400])
+
+
 def class_records():
     """(class token, constructor thunk) for every box class whose subs is modelled."""
     from discopy import tensor
@@ -1005,7 +1450,14 @@ def run(tier, seed, replay=None):
                 "untouched).  HISTORIES: 2-3 diagrams that look alike (same shape, names, gate classes; "
                 "numeric constants agreeing on 2/3/5/9 significant digits, or independent data, or the "
                 "same diagram built twice) substituted and lambdified one after another in both orders, "
-                "each result compared with sympy's subs of ITS OWN data (1e-12) and through evaluation")
+                "each result compared with sympy's subs of ITS OWN data (1e-12) and through evaluation.  "
+                "CONTAINERS (family containers): the same entries handed to tensor.Box / ClassicalGate as tuple, "
+                "nested tuples, tuple-in-list, list-in-tuple, deep mixes, ndarray flat / shaped / inside a list or "
+                "tuple, 0-d array, bare expression (every kind on every run), alone and composed, under the same "
+                "oracle; nested data that is not an array (set, frozenset, dict of lists / tuples / sets / arrays, "
+                "nested dicts, sets of tuples, random mixes) as data of cat / monoidal / rigid / tensor / circuit "
+                "boxes and QuantumGate(data=...): free symbols = symbols of the entries given, subs maps the "
+                "entries and keeps everything else, lambdify = subs")
     rep.partial = [
         "sympy's subs / lambdify / simplify are outside the model (oracle only)",
         "the Lean polynomial instance (Model/Param.lean Poly) is not proved to be a commutative "
@@ -1015,6 +1467,10 @@ def run(tier, seed, replay=None):
         "sequences: the model (Model/ParamSeq.lean) covers the redundant record boxes/offsets/layers and "
         "subs, lambdify, slicing [i:j] for non-negative indices without step on tensor diagrams; "
         "iteration, d[i], str and the sequences on circuits / ZX diagrams are oracle-only",
+        "containers: the model (Model/ParamData.lean) covers free symbols and rsubs of nested data (streams "
+        "dfree / dsubsfree / dsubs); lambdify on nested data goes through sympy.lambdify (oracle only; its "
+        "refusals of sets and dicts are counted, dicts with string keys are not lambdified); boxes whose "
+        "data is not an array have no evaluation: their data is compared instead",
     ]
     rep.assumptions = [
         "lambdify is called with symbol lists covering every free symbol (sympy.lambdify cannot "
@@ -1029,6 +1485,7 @@ def run(tier, seed, replay=None):
         class_stream(rep, drv)
         model_stream(rep, drv, random.Random(rng.getrandbits(64)), 40 if quick else 300)
         seq_model_stream(rep, drv, random.Random(seed * 1000003 + 141), 30 if quick else 250)
+        data_model_stream(rep, drv, random.Random(seed * 1000003 + 142), 60 if quick else 500)
     finally:
         drv.close()
     t_fam = {}
@@ -1089,5 +1546,20 @@ def run(tier, seed, replay=None):
             real = (fam in ("mixed", )) or r.random() < 0.5
             check_history(rep, fam, pl.symbols(real, 3), r, real)
     t_fam["histories"] = round(time.time() - t0, 2)
+    # containers of box data: own generator
+    t0 = time.time()
+    crng = random.Random(seed * 1000003 + 143)
+    for mk in container_witnesses():
+        rep.count("container_witness")
+        check_diagram(rep, "tensor", mk(), pl.symbols(True, 3), random.Random(crng.getrandbits(64)), True, 4)
+    for stream, kind, host in container_plan(random.Random(crng.getrandbits(64)), quick):
+        r = random.Random(crng.getrandbits(64))
+        real = host == "mixed" or r.random() < 0.5
+        syms = pl.symbols(real, 3)
+        if stream == "array":
+            check_array_containers(rep, r, syms, real, kind, fam=host, budget=2 if quick else 5, big=not quick)
+        else:
+            check_wild_containers(rep, r, syms, real, host, kind)
+    t_fam["containers"] = round(time.time() - t0, 2)
     rep.extra["family_wall_s"] = t_fam
     return rep.finish()
